@@ -18,26 +18,37 @@ FracSet(k) == {Rep("f", k), Rep("F", k), "." \o Rep("f", k), "." \o Rep("F", k),
 FracTable == [k \in 1..9 |-> FracSet(k)]
 FracDigits(t) == IF \E k \in 1..9 : t \in FracTable[k] THEN CHOOSE k \in 1..9 : t \in FracTable[k] ELSE 0
 AllFrac == UNION {FracTable[k] : k \in 1..9}
+SepOptFrac == UNION {{"." \o Rep("F", k), ";" \o Rep("F", k)} : k \in 1..9}
+\* (the separator and the run of F may have been cut into two tokens)
+SepOptAt(tokens, i) == tokens[i] \in SepOptFrac \/ (tokens[i] \in {Rep("F", k) : k \in 1..9} /\ i > 1 /\ tokens[i - 1] \in {".", ";"})
 BareFrac == {Rep("f", k) : k \in 1..9} \cup {Rep("F", k) : k \in 1..9}
 MaxFrac(tokens) == LET S == {FracDigits(tokens[i]) : i \in 1..Len(tokens)} IN
                    IF S = {} THEN 0 ELSE CHOOSE m \in S : \A x \in S : x <= m
 
 \* ---- time of day: v = [h, mi, s, n] ----------------------------------------------------
-TimeRepresentable(tokens, v, ampmOk) ==
+\* (tpl: the time of day of the pattern's template value - what fields the pattern does not capture are read back as;
+\*  midnight unless the pattern was given another one)
+Midnight == [h |-> 0, mi |-> 0, s |-> 0, n |-> 0]
+TimeRepresentableT(tokens, v, ampmOk, tpl) ==
   LET h24 == HasTok(tokens, {"H", "HH"})
       h12 == HasTok(tokens, {"h", "hh"})
       ap == HasTok(tokens, {"t", "tt"}) /\ ampmOk
       hourOk == \/ h24
                 \/ h12 /\ ap
-                \/ h12 /\ ~ap /\ v.h < 12
-                \/ ~h12 /\ ap /\ v.h \in {0, 12}
-                \/ ~h12 /\ ~ap /\ v.h = 0
+                \/ h12 /\ ~ap /\ v.h \div 12 = tpl.h \div 12          \* the half of the day comes from the template
+                \/ ~h12 /\ ap /\ v.h % 12 = tpl.h % 12                 \* the hour within the half comes from the template
+                \/ ~h12 /\ ~ap /\ v.h = tpl.h
   IN  /\ hourOk
       \* an am/pm field must be readable back: only where the culture's two designators can be told apart
       /\ (HasTok(tokens, {"t", "tt"}) => ampmOk)
-      /\ (HasTok(tokens, {"m", "mm"}) \/ v.mi = 0)
-      /\ (HasTok(tokens, {"s", "ss"}) \/ v.s = 0)
-      /\ v.n % Pow10(9 - MaxFrac(tokens)) = 0
+      /\ (HasTok(tokens, {"m", "mm"}) \/ v.mi = tpl.mi)
+      /\ (HasTok(tokens, {"s", "ss"}) \/ v.s = tpl.s)
+      \* no fraction field: the template's; else the value's digits must fit - and an optional fraction with its own separator
+      \* (".FFF", ";FFF") writes nothing for zero and then reads back the template's fraction
+      /\ (IF MaxFrac(tokens) = 0 THEN v.n = tpl.n
+          ELSE /\ v.n % Pow10(9 - MaxFrac(tokens)) = 0
+               /\ ((v.n = 0 /\ \A i \in 1..Len(tokens) : tokens[i] \in AllFrac => SepOptAt(tokens, i)) => tpl.n = 0))
+TimeRepresentable(tokens, v, ampmOk) == TimeRepresentableT(tokens, v, ampmOk, Midnight)
 
 \* ---- offset: v = [sec] ------------------------------------------------------------------
 OffsetRepresentable(tokens, v) ==
